@@ -218,7 +218,10 @@ public:
         {
             column_paths_.clear();
             column_path_value_map_.clear();
+            column_path_name_map_.clear();
         }
+        column_path_column_map_.clear();
+        column_it_ = column_path_column_map_.end();
         column_index_ = 0;
     }
 
